@@ -58,6 +58,13 @@ QueryCases ==
          sched |-> <<OneBurst(Replies(T0, ReqColors), 0)>>],
         [opx |-> [NoOp EXCEPT !.name = "cellsize"], pred |-> Pred1, preload |-> <<>>,
          sched |-> <<OneBurst(Replies(T0, ReqCell), 1)>>]}
+\* the terminal stays silent: the query times out with an empty response ("on timeout" clause)
+SilentCases ==
+  {[opx |-> [NoOp EXCEPT !.name = "query", !.req = ReqNameVer, !.more = mo, !.tmo = t],
+    pred |-> [stop |-> 99, raiseAt |-> 0], preload |-> <<120>>, sched |-> <<>>] :
+     t \in {TNone, Tmo + 1}, mo \in {"csi", "ext"}}
+  \cup {[opx |-> [NoOp EXCEPT !.name = o], pred |-> Pred1, preload |-> <<>>, sched |-> <<>>] :
+          o \in {"colors", "namever", "cellsize"}}
 DrawCases ==
   {[opx |-> [NoOp EXCEPT !.name = "draw", !.hide = h, !.echo = ec, !.nbody = 2], pred |-> Pred1,
     preload |-> <<>>, sched |-> <<>>] : h \in BOOLEAN, ec \in BOOLEAN}
@@ -81,7 +88,7 @@ Pars(cases, words, kinds) ==
          : c \in cases, w \in words}
 Params == Pars(ReadCases, Words, {"InjectedFault"})
           \cup Pars(DrawCases, Words, {"InjectedFault", "KeyboardInterrupt"})
-          \cup Pars(QueryCases, IF AllWords THEN Words ELSE FewWords, {"InjectedFault"})
+          \cup Pars(QueryCases \cup SilentCases, IF AllWords THEN Words ELSE FewWords, {"InjectedFault"})
 
 Init ==
   /\ par \in Params
@@ -131,6 +138,10 @@ FaultSurfaces == (Done /\ fired) => m.status = "raised"
 \* every enumerated position exists: the fault fires unless it is exempt (clean-up) or the
 \* call itself fails
 \* the attributes really are changed on the way (the invariant is not vacuous)
+\* the silent-terminal cases really time out with an empty response
+TimesOutEmpty ==
+  (Done /\ par.fault.k = 0 /\ par.case.sched = <<>> /\ par.case.opx.name = "query") =>
+     (m.status = "returned" /\ m.rb = <<>> /\ ~m.rnone /\ e.now > 0)
 ModeIsChanged ==
   (Done /\ par.fault.k = 0 /\ par.case.opx.name = "read") => \E i \in 1..Len(hist) : hist[i] = "tcsetattr"
 
